@@ -323,3 +323,62 @@ Proof.
     injection E as <- <- E. exact (IH _ _ _ E).
   - destruct newer as [|x newer]; [injection E as <- <-; exact Hin|]. injection E as <- E. exact (IH _ _ _ E).
 Qed.
+
+(* ====================================================================== *)
+(* C17: the deprecation note recorded for a version                        *)
+(* ====================================================================== *)
+(* every note in the deprecation table is the one the registry's own listing
+   attaches to exactly that version (the first entry of the listing that is
+   that version, build metadata included), and the version was offered *)
+Definition deprec_inv (w : world) (st : bstate) : Prop :=
+  (forall p infos, assoc str_eqb p (vcache st) = Some infos -> w_versions w p = Some infos) /\
+  (forall k d, In (k, d) (deprec st) ->
+     exists infos, w_versions w (fst k) = Some infos /\ d = first_same (snd k) infos).
+
+Section Deprec.
+Variable w : world.
+
+Lemma frs_deprec st p sub sid : deprec_inv w st -> deprec_inv w (fst (find_registry_source w st p sub sid)).
+Proof.
+  intros (V & Dp). unfold find_registry_source.
+  set (first := match assoc str_eqb p (vcache st) with
+                | Some infos => (log_ev st (EVersionsAlready p), Some infos)
+                | None => _ end).
+  assert (Hfirst : deprec_inv w (fst first) /\ (forall infos, snd first = Some infos -> w_versions w p = Some infos)).
+  { unfold first. destruct (assoc str_eqb p (vcache st)) as [infos|] eqn:Ea.
+    - split; [split; cbn; auto|]. cbn. intros i [= <-]. now apply V.
+    - destruct (w_versions w p) as [infos|] eqn:Ew; cbn.
+      + split; [|intros i [= <-]; reflexivity]. split; cbn; [|exact Dp].
+        intros q i. destruct (str_eqb q p) eqn:Eq; [|apply V].
+        apply str_eqb_eq in Eq. subst q. now intros [= <-].
+      + split; [split; cbn; auto|discriminate]. }
+  destruct first as [st1 [infos|]]; cbn [fst snd] in *; [|exact (proj1 Hfirst)].
+  destruct Hfirst as ((V1 & D1) & Hinfos). specialize (Hinfos infos eq_refl).
+  destruct (select_version _ _) as [v|]; cbn [fst]; [|split; auto].
+  destruct (assoc pv_eqb (p, v) (resolved st1)) as [[rp rsub]|] eqn:Er.
+  - assert (H : deprec_inv w (log_ev st1 (ESourceAlready p v))) by (split; cbn; auto).
+    destruct (final_source_addr sub rp rsub); exact H.
+  - destruct (w_source w p v) as [[rp rsub]|] eqn:Ew.
+    + assert (H : deprec_inv w (log_ev (add_resolved (log_call (log_ev st1 (ESourceStart p v)) (CSource p v)) (p, v) (rp, rsub) (first_same v infos)) (ESourceSuccess p v))).
+      { split; cbn; [exact V1|]. intros k d [[= <- <-]|Hin]; [exists infos; auto|now apply D1]. }
+      destruct (final_source_addr sub rp rsub); exact H.
+    + cbn [fst]. split; cbn; auto.
+Qed.
+
+Lemma erp_deprec st p : deprec_inv w st -> deprec_inv w (fst (ensure_remote_package w st p)).
+Proof.
+  intros H. unfold ensure_remote_package. destruct (assoc str_eqb p (dirs st)); [exact H|].
+  destruct (w_fetch w p) as [[c m]|]; exact H.
+Qed.
+
+Theorem deprecation_recorded fuel ops st st' outs :
+  deprec_inv w st -> run_ops fuel w st ops = (st', outs) -> deprec_inv w st'.
+Proof.
+  apply (lift_run w (deprec_inv w)); try (intros; assumption).
+  - intros s p sub sid. apply frs_deprec.
+  - intros s p. apply erp_deprec.
+Qed.
+End Deprec.
+
+Lemma deprec_inv_init w : deprec_inv w init_state.
+Proof. split; cbn; [discriminate|intros ? ? []]. Qed.
